@@ -135,18 +135,22 @@ func c07Exec(w *enga.World, blk *sim.Block, txs [][]byte, mode string) c07Outcom
 	n := w.N
 	fail := func(stage string, err error) c07Outcome { return c07Outcome{Err: stage + ": " + err.Error()} }
 	n.EL.ResetCalls()
-	pr, err := n.Process(&b, txs)
-	if err != nil || pr.Status != abci.ResponseProcessProposal_ACCEPT {
-		return c07Outcome{Err: fmt.Sprintf("process: %v %v", pr, err)}
+	if mode != "finalize-without-process" {
+		pr, err := n.Process(&b, txs)
+		if err != nil || pr.Status != abci.ResponseProcessProposal_ACCEPT {
+			return c07Outcome{Err: fmt.Sprintf("process: %v %v", pr, err)}
+		}
 	}
 	if mode == "second-proposal-round" {
+		var pr *abci.ResponseProcessProposal
+		var err error
 		// the proposal is checked again in a later round before it is finalised
 		n.EL.ResetCalls()
 		if pr, err = n.Process(&b, txs); err != nil || pr.Status != abci.ResponseProcessProposal_ACCEPT {
 			return c07Outcome{Err: fmt.Sprintf("process (2nd round): %v %v", pr, err)}
 		}
 	}
-	partial := false
+	partial := mode == "finalize-without-process" // a decided block replayed to a node that never saw its proposal
 	switch mode {
 	case "restart-between-process-and-finalize":
 		// the process that finalises the block never saw its proposal: a restart after the
@@ -571,6 +575,10 @@ var c07ClockTable = []struct {
 	{"block+10s", 10, true},
 	{"block+400d", 400 * 86400, true},
 	{"block-400d", -400 * 86400, true},
+	// a clock that is behind everything, the execution payload's own timestamp included: such a node
+	// cannot check proposals (that rule reads the clock, legitimately), but it executes decided
+	// blocks - block sync, replay after a crash - and must get what everybody else got
+	{"unix-epoch:decided-block-replayed", 0, false},
 }
 
 var c07Clocks = func() (out []string) {
@@ -600,10 +608,14 @@ func C07Clock(scName, off string) {
 			}
 		}
 	}
+	mode := "plain"
+	if strings.HasPrefix(off, "unix-epoch") {
+		sec, mode = -time.Now().Unix(), "finalize-without-process"
+	}
 	ovl.SetNowOffset(sec)
 	x, err := w.Fork()
 	must(err)
-	o := c07Exec(x, blk, txs, "plain")
+	o := c07Exec(x, blk, txs, mode)
 	ovl.SetNowOffset(0)
 	bz, _ := json.Marshal(o)
 	fmt.Println(string(bz))
